@@ -58,7 +58,7 @@ def apply_override(config, key, value):
     section[parts[-1]] = value
 
 
-def invoke(files, sets, service, env_service, env_extra=None):
+def invoke(files, sets, service, env_service, env_extra=None, secret_text="file-text\n", first_secret=None):
     """Run the real click command in an isolated directory with run_application recorded."""
     calls = []
     saved = _cli.run_application
@@ -76,13 +76,19 @@ def invoke(files, sets, service, env_service, env_extra=None):
                     with open(f"conf{i}.yml", "w") as f:
                         f.write(text)
                     names.append(f"conf{i}.yml")
-                with open("secret.txt", "w") as f:
-                    f.write("file-text\n")
                 args = ["run"] + names
                 for s in sets:
                     args += ["--set", s]
                 if service:
                     args += ["--service", service]
+                if first_secret is not None:
+                    # an earlier invocation in the same process saw other file contents (secrets get rotated)
+                    with open("secret.txt", "w") as f:
+                        f.write(first_secret)
+                    runner.invoke(_cli.main, args, env=env)
+                    calls.clear()
+                with open("secret.txt", "w") as f:
+                    f.write(secret_text)
                 result = runner.invoke(_cli.main, args, env=env)
             finally:
                 os.chdir(cwd)
@@ -157,8 +163,8 @@ def prec_fn(a, tier):
         y1 = "max_threads: 3\nlogging:\n  version: 1\n  loggers: {a: {level: INFO}}\ncomponent:\n" + comp_yaml
     else:
         # the same component inside the only service; the service section also overrides a top-level option
-        d1 = dict(base, services={"web": {"component": comp, "max_threads": 9}})
-        y1 = "max_threads: 3\nlogging:\n  version: 1\n  loggers: {a: {level: INFO}}\nservices:\n  web:\n    max_threads: 9\n    component:\n" + "\n".join(
+        d1 = dict(base, services={"web": {"component": comp, "max_threads": 9, "logging": {"loggers": {"svc": {"level": "WARNING"}}}}})
+        y1 = "max_threads: 3\nlogging:\n  version: 1\n  loggers: {a: {level: INFO}}\nservices:\n  web:\n    max_threads: 9\n    logging: {loggers: {svc: {level: WARNING}}}\n    component:\n" + "\n".join(
             "    " + ln for ln in comp_yaml.splitlines()) + "\n"
     files, datas = [y1], [d1]
     prefix = "services.web." if svc else ""
@@ -181,7 +187,8 @@ def prec_fn(a, tier):
                 k = prefix + k
             sets_txt.append(f"{k}={SETS[s].split('=', 1)[1]}")
             sets_val.append((k, v))
-    code, calls, text, exc = invoke(files, sets_txt, None, None, {"C16_VAR": "from-env"})
+    uses_file = tag in (2, 3) or 8 in (s1, s2)
+    code, calls, text, exc = invoke(files, sets_txt, None, None, {"C16_VAR": "from-env"}, first_secret="old-text\n" if uses_file else None)
     exp = expected_call(datas, sets_val, None, None)
     summary = {"files": files, "overrides": sets_txt, "tag": TAGS[tag], "component_in": "the only service" if svc else "top level"}
     if exp[0] == "error":
